@@ -40,7 +40,7 @@ Proof. exact zero_reserved_pos. Qed.
 Print Assumptions C08_zero_reserved_pos.
 
 (* integer codecs invert each other *)
-Theorem C08_int_roundtrip : forall signed w z,
+Theorem C08_int_roundtrip : forall (signed : bool) w z,
   (w = 1 \/ w = 2 \/ w = 4 \/ w = 8)%nat ->
   (if signed then (- (Z.of_N (pow256 w) / 2) <= z < Z.of_N (pow256 w) / 2)%Z
    else (0 <= z < Z.of_N (pow256 w))%Z) ->
